@@ -95,7 +95,18 @@ def c19(report, rng, tier, findings):
         nv = rng.choice((1, 1, 2))
         cfg = gen.Cfg(n_vars=(nv, nv), n_objs=(2, 5 if nv == 1 else 3), depth=2, falsy=0.6, select_terms=0.5,
                       int_range=(0, 2), empty_domain=0.0)
-        cases.append(gen.gen_case(rng, cfg, f'c{i}'))
+        case = gen.gen_case(rng, cfg, f'c{i}')
+        if rng.random() < 0.2:
+            # a membership test whose ITEM is a (often falsy) attribute value, evaluated after the item's variable is bound:
+            # as a later conjunct, or alone
+            v0 = case['vars'][0][0]
+            pool_ = gen.FALSY + [('i', 1), ('i', 2)]
+            cont = ('lit', ('l',) + tuple(rng.sample(pool_, rng.randint(1, len(pool_)))))
+            mem = ('in', ('attr', 'b', ('var', v0)), cont) if rng.random() < 0.7 else ('contains', cont, ('attr', 'b', ('var', v0)))
+            g_ = gen.CondGen(rng, cfg, [v[0] for v in case['vars']])
+            case['cond'] = [rng.choice([('and', g_.atom(), mem), ('and', mem, g_.atom()), mem, ('or', g_.atom(), mem)])]
+            report.count('membership_of_a_falsy_item')
+        cases.append(case)
     report.rule = ("the generators of C01/C02 on datasets where 60% of the objects carry a falsy value (0, '', None, False, [], ()) "
                    "in the attribute used as a value and ints are drawn from 0..2: falsy values as comparison operands, membership "
                    "items, predicate arguments and selected outputs; rows compared with the oracle; non-trivial = the dataset "
